@@ -28,6 +28,10 @@ type HistOpts struct {
 	// few partitions, roomy row-group limits, many small flushed files, and
 	// one or more merges at the end.
 	MergeHeavy bool
+	// GroupedParts: partition by the "p" field and give every batch a single
+	// partition value, so files hold disjoint partitions and one Merge forms
+	// several merge groups.
+	GroupedParts bool
 }
 
 // mergeFriendly rewrites a drawn configuration so blocks of different files
@@ -60,6 +64,10 @@ func drawHistory(t *rapid.T, o HistOpts) History {
 	}
 	if o.MergeHeavy {
 		h.Cfg = mergeFriendly(t, h.Cfg)
+		if o.GroupedParts {
+			h.Cfg.Partition = "field"
+			h.Cfg.BufRows = 1000
+		}
 	}
 	cfg := h.Cfg
 	nsteps := rapid.IntRange(1, o.MaxSteps).Draw(t, "nsteps")
@@ -91,6 +99,19 @@ func drawHistory(t *rapid.T, o HistOpts) History {
 				}
 				rows = append(rows, drawRow(t, spec))
 			}
+			if o.MergeHeavy && chance(t, "compressible", 50) {
+				// rows that really compress, so compressed and uncompressed sizes differ
+				for j := range rows {
+					pad := VStr(strings.Repeat(pick(t, "padch", []string{"ab ", "x", "error "}), pick(t, "padn", []int{60, 150, 400})))
+					rows[j] = Val{K: "obj", O: setMember(append([]KV(nil), rows[j].O...), "pad", pad)}
+				}
+			}
+			if o.GroupedParts {
+				part := VStr(pick(t, "batchpart", []string{"p1", "p2", "p3", "z"}))
+				for j := range rows {
+					rows[j] = Val{K: "obj", O: setMember(append([]KV(nil), rows[j].O...), partFieldName, part)}
+				}
+			}
 			h.Steps = append(h.Steps, Step{Op: "ingest", Rows: rows})
 		case k < 14:
 			h.Steps = append(h.Steps, Step{Op: "flush"})
@@ -101,6 +122,10 @@ func drawHistory(t *rapid.T, o HistOpts) History {
 				if chance(t, "samekeys", 60) {
 					c.MinMax = append([]string(nil), h.Cfg.MinMax...)
 					c.Partition = h.Cfg.Partition
+				}
+				if o.GroupedParts {
+					c.Partition = "field"
+					c.BufRows = 1000
 				}
 			}
 			cfg = c
